@@ -46,6 +46,9 @@ def _cases(tier):
                             yield [name, L, qD, algo, sweeps, it, prof, 'complex']
                         if ':' not in algo:
                             yield [name, L, qD, algo, 2, 3, prof, 'real']
+                            # column-major tensors; tensors of size 2^-20 / 2^20 (DMRG starts by normalising: nothing may depend on the units)
+                            for sk in ('fortran', 'tiny', 'large'):
+                                yield [name, L, qD, algo, 2, 10, prof, sk]
 
 
 def run_dmrg(algo, H, psi, sweeps, it):
@@ -64,7 +67,7 @@ def run_case(case, ctx):
     ctx.cls('state_dtype:' + skind)
     v0 = dense.mps_to_vector(psi.A)
     n0 = np.linalg.norm(v0)
-    if n0 < 1e-12:
+    if n0 <= 1e-12 * float(np.prod([np.linalg.norm(a) for a in psi.A])):
         raise OutOfDomain()
     Hd = dense.mpo_to_matrix(H.A)
     hb = ec.mpo_bytes(H)
